@@ -49,7 +49,7 @@ def parseStmt : Nat → List String → Option (Stmt × List String)
     | "loop" :: k :: id :: n :: r => do
       let kind ← (match k with
         | "w" => some LoopKind.while_ | "d" => some LoopKind.do_
-        | "f" => some LoopKind.for_ | "i" => some LoopKind.forin | _ => none)
+        | "f" => some LoopKind.for_ | "i" => some LoopKind.forin | "l" => some LoopKind.forlet | _ => none)
       let id ← id.toNat?
       let n ← n.toNat?
       let (b, r) ← parseStmt fuel r
@@ -58,10 +58,12 @@ def parseStmt : Nat → List String → Option (Stmt × List String)
       let id ← id.toNat?
       let n ← n.toNat?
       let nt ← optNat? nt
+      let lex := rm == "O" || rm == "T" || rm == "N"
       let rm ← (match rm with
-        | "o" => some RetMode.ok | "t" => some RetMode.thr | "n" => some RetMode.nonobj | _ => none)
+        | "o" => some RetMode.ok | "t" => some RetMode.thr | "n" => some RetMode.nonobj
+        | "O" => some RetMode.ok | "T" => some RetMode.thr | "N" => some RetMode.nonobj | _ => none)
       let (b, r) ← parseStmt fuel r
-      pure (.forOf ⟨id, n, nt, rm⟩ b, r)
+      pure (.forOf ⟨id, n, nt, rm, lex⟩ b, r)
     | "lbl" :: l :: r => do
       let l ← l.toNat?
       let (s, r) ← parseStmt fuel r
